@@ -33,6 +33,30 @@ def corrupt(case, rnd):
     return c
 
 
+def check_printer_unambiguous(ctx, files):
+    """Sanity gate on the SPECIFICATION's own printers: within the exported set, one source text never stands for two
+    different trees (otherwise Parse(Print(t)) = t could not hold for any parser).  A failure is a model defect."""
+    seen = {}
+    n = 0
+    for fn in files:
+        for line in open(ctx.path(fn)):
+            c = json.loads(line)
+            if c.get('fam') == 'expr':
+                keys = [((c['ctx'], ' '.join(c['min'])), c['sx']), ((c['ctx'], ' '.join(c['full'])), c['sx'])]
+            elif c.get('fam') in ('prog', 'shape'):
+                keys = [(('prog', ' '.join(c['toks'])), c['sx'])]
+            elif c.get('fam') in ('str', 're'):
+                keys = [((c['fam'], tuple(c['lit'])), tuple(c['val']))]
+            else:
+                continue
+            for k, v in keys:
+                n += 1
+                if seen.setdefault(k, v) != v:
+                    raise MachineryError(f'the specification prints two different trees as the same text {k}: {seen[k]} / {v}')
+    ctx.log(f'specification printers: {n} exported texts, no text stands for two trees')
+    ctx.cov['spec_printer_texts_checked_unambiguous'] = n
+
+
 def run(ctx):
     q = ctx.quick
     ctx.rule = ('a case is one program exported by TLC: an expression tree of Grammar.tla in one of five contexts (minimal, '
@@ -59,7 +83,7 @@ def run(ctx):
         ctx.tlc('MC_GrammarLit', ctx.cfg('MC_GrammarLit', constants={'Pairs': 'TRUE', 'ReLen': 3}), timeout=900)
     # 2. spec -> code
     if q:
-        gen = ctx.cfg('Gen_Grammar', constants={'MaxOps': 2, 'MaxOdd': 0, 'Prods': prods})
+        gen = ctx.cfg('Gen_Grammar', constants={'MaxOps': 2, 'MaxOdd': 1, 'Prods': prods, 'OddCtxs': '{"stmt"}'})
         ctx.tlc('Gen_Grammar', gen, capture='cases_expr.ndjson', timeout=600)
         genp = ctx.cfg('Gen_GrammarProg', constants={'MaxS': 2, 'Shifts': '{0, 7, 13, 22, 31}', 'Pairs': 'FALSE', 'ReLen': 2})
         ctx.tlc('Gen_GrammarProg', genp, capture='cases_prog.ndjson', timeout=600)
@@ -67,11 +91,12 @@ def run(ctx):
         gen = ctx.cfg('Gen_Grammar', constants={'MaxOps': 2, 'MaxOdd': 2, 'Prods': c04mod.tla_set(c04mod.ALL_PRODS + c04mod.MORE_ASG)})
         ctx.tlc('Gen_Grammar', gen, capture='cases_expr.ndjson', timeout=1500, heap='8g')
         gen3 = ctx.cfg('Gen_Grammar', name='Gen_Grammar_3', constants={'MaxOps': 3, 'MaxOdd': 0, 'MinLen': 6, 'Prods': prods,
-                                                                       'Ctxs': '{"stmt", "printgt"}'})
+                                                                       'Ctxs': '{"stmt", "printgt"}', 'OddCtxs': '{"stmt"}'})
         ctx.tlc('Gen_Grammar', gen3, capture='cases_expr.ndjson', timeout=2400, heap='10g')
         genp = ctx.cfg('Gen_GrammarProg', constants={'MaxS': 3, 'Shifts': '{0, 3, 7, 11, 13, 17, 22, 26, 31, 35}', 'Pairs': 'TRUE', 'ReLen': 3})
         ctx.tlc('Gen_GrammarProg', genp, capture='cases_prog.ndjson', timeout=2400, heap='8g')
     ctx.cov['exhaustive'] = True
+    check_printer_unambiguous(ctx, ['cases_expr.ndjson', 'cases_prog.ndjson'])
     s1 = ctx.replay('cases_expr.ndjson', label='gen-expr', min_cases=5000, corrupt=corrupt)
     if s1['skipped'] > s1['n'] // 10:
         raise MachineryError(f'gen-expr: {s1["skipped"]} of {s1["n"]} expression cases were not judged (source read differently)')
